@@ -53,7 +53,7 @@ impl Mon {
 }
 
 /// Did the call deliver (and process) a suspicion about the current identity that can no longer be
-/// refuted, i.e. max(own incarnation, suspected incarnation) == Incarnation::MAX?
+/// refuted, i.e. a suspicion at an incarnation not lower than the own one and equal to Incarnation::MAX?
 fn unrefutable_suspicion_processed(rec: &CallRec, codec: CodecKind, max_packet: usize) -> bool {
     let d = model::delivered(rec, max_packet, codec);
     if !d.processed {
@@ -67,12 +67,12 @@ fn unrefutable_suspicion_processed(rec: &CallRec, codec: CodecKind, max_packet: 
         match u.state() {
             State::Down => return false, // handled by the Down clause
             State::Suspect => {
-                let m = own.max(u.incarnation());
-                if m == u16::MAX {
-                    return true;
-                }
+                // a suspicion below the own incarnation is stale: it has been refuted already
                 if u.incarnation() >= own {
-                    own = m + 1;
+                    if u.incarnation() == u16::MAX {
+                        return true;
+                    }
+                    own = u.incarnation() + 1;
                 }
             }
             State::Alive => {}
@@ -99,12 +99,11 @@ fn self_death_trigger(rec: &CallRec, codec: CodecKind, max_packet: usize) -> boo
             match u.state() {
                 State::Down => return true,
                 State::Suspect => {
-                    let m = own.max(u.incarnation());
-                    if m == u16::MAX {
-                        return true;
-                    }
                     if u.incarnation() >= own {
-                        own = m + 1;
+                        if u.incarnation() == u16::MAX {
+                            return true;
+                        }
+                        own = u.incarnation() + 1;
                     }
                 }
                 State::Alive => {}
@@ -522,7 +521,7 @@ pub fn run(ctx: &Ctx, report: &mut Report) -> EvidenceMeta {
             .into(),
         assumptions: vec![
             "harness identity order is a strict total order per address".into(),
-            "a Suspect about the own identity with max(own,suspected)==Incarnation::MAX counts as 'can no longer refute' (the code's reading)".into(),
+            "'can no longer refute a suspicion' = a Suspect about the own identity at Incarnation::MAX and not below the own incarnation; a suspicion below the own incarnation is stale (already refuted) and justifies neither Defunct nor Rejoin".into(),
         ],
     }
 }
